@@ -159,10 +159,24 @@ Definition prop_extract (input obs : val) : val :=
      rootinfo = (n<number of roots> n<`car root` prints the header root> n<root is not the proxy>
                  n<root block is in the archive>) *)
 Definition run_createextract (input : val) : val :=
-  match run_extract input with
-  | VL l => VL (l ++ [VL [VN 1; VN 1; VN 1; VN 1]])
-  | v => v
-  end.
+  let opts := vnth 5 input in
+  let version := vN (vnth 0 opts) in
+  let mode := vN (vnth 2 opts) in
+  let opens :=
+    if mode =? 0 then true
+    else stdin_open_ok true (if mode =? 1 then RRegular else RPipe) version in
+  let ri := VL [VN 1; VN 1; VN 1; VN 1] in
+  if opens then
+    match run_extract input with
+    | VL l => VL (l ++ [ri])
+    | v => v
+    end
+  else
+    (* the archive cannot be opened: nothing is extracted *)
+    match run_extract input with
+    | VL [_; rr; _] => VL [VL [VT "err"]; rr; fs_v (v_fs (vnth 0 input)); ri]
+    | v => v
+    end.
 
 (* entries of fs below p, relative to p (p itself as the empty path) *)
 Fixpoint strip_prefix (p q : phys) : option phys :=
@@ -193,7 +207,6 @@ Definition prop_createextract (input obs : val) : val :=
   let after := v_fs (vnth 2 obs) in
   let ri := vnth 3 obs in
   let opts := vnth 5 input in
-  let cls := VL [VT "v"; VN (vN (vnth 0 opts)); VT "nowrap"; VN (vN (vnth 1 opts)); VT "mode"; VN (vN (vnth 2 opts))] in
   if negb ((vN (vnth 0 ri) =? 1) && vbool (vnth 1 ri) && vbool (vnth 2 ri) && vbool (vnth 3 ri))
   then VL [VT "FAIL"; VT "root-is-not-the-single-printed-cid"; VT "create"]
   else
